@@ -98,7 +98,8 @@ row("crate::fmt::DisplayBuffer::<SIZE>::new", "foreign", "core::mem::maybe_unini
 for ty in ("i8", "i16", "i32", "i64", "i128", "isize"):
     row("crate::from::<impl core::convert::TryFrom<%s> for %s>::try_from" % (ty, U), "diverge", "unreachable!#",
         "match arm for ValueNegative/NotANumber after try_from(unsigned): the unsigned conversions construct only "
-        "Ok/ValueTooLarge (checked by R-GUARD err-kinds on TryFrom<u64>/TryFrom<u128>)")
+        "Ok/ValueTooLarge (checked by R-GUARD err-kinds on TryFrom<u64>/TryFrom<u128>)",
+        what_re=r"unreachable!#.*")
 row("crate::from::<impl core::convert::TryFrom<f64> for %s>::try_from" % U, "diverge", "assert!#Eq(sign,0)",
     "sign bit is 0 because value < 0.0 returned ValueNegative earlier and -0.0 + 0.5 > 0 (float arithmetic, C18 "
     "clause decided by R-FLOAT classification order)")
